@@ -52,7 +52,11 @@ MANIFEST = dict(
          "(5b, SFile) the request that reaches Recfile.read is followed by reaching definitions from the parameters of SFile.read through "
          "any private helper of the class: rows must be the rows parameter, the column request the merge of fields= and columns= (or both "
          "forwarded).  (6a) split_fields is checked on whatever function the name resolves to in sfile, recfile.Util and numpy_util "
-         "(an import of another module's copy is followed).  (7i) a counted loop whose first round differs from the later ones by a "
+         "(an import of another module's copy is followed), and decided on the terms its return paths hand out: a symbolic walk over "
+         "every path (parameters stay symbols, undecided tests are followed both ways, a loop body / comprehension element is walked "
+         "once for a symbolic visited element) must give tuple(<one data[element] per element of the request, or of the dtype's "
+         "fields when fields is None>), each visit raising unless the element is a field name; what the walk does not follow falls "
+         "back to the statement template.  (7i) a counted loop whose first round differs from the later ones by a "
          "test of the loop counter alone is accepted when the reads of all rounds form one arithmetic progression.  (1g) what a slice "
          "normaliser returns depends, by data or control dependence (reaching definitions, over-approximated), on the start, the stop and "
          "the step of the slice on every return path, and each component is handed to it at the call.  (6f) the field selector of every "
@@ -76,7 +80,7 @@ MANIFEST = dict(
 SEMANTIC = ('R02.5g', 'R02.7l', 'R02.1b', 'R02.1c', 'R02.1e', 'R02.1g', 'R02.2a', 'R02.2b', 'R02.2c', 'R02.4', 'R02.6b', 'R02.6c', 'R02.6f', 'R02.7i', 'R02.7k',
             'R02.1f::eval::', 'R02.1f::sem::', 'R02.3a::eval::', 'R02.3a::sem::', 'R02.3b::eval::', 'R02.3c::eval::', 'R02.3d::eval::',
             'R02.5b::eval::', 'R02.5b::sem::', 'R02.5c::eval::', 'R02.5d::eval::', 'R02.5e::eval::', 'R02.5f::eval::',
-            'R02.6a::eval::', 'R02.6d::eval::', 'R02.6e::eval::',
+            'R02.6a::eval::', 'R02.6a::sem::', 'R02.6d::eval::', 'R02.6e::eval::',
             'R02.7a::eval::', 'R02.7b::eval::', 'R02.7e::eval::', 'R02.7f::eval::', 'R02.7j::eval::', 'R02.7j::sem::')
 
 CPP = "esutil/recfile/records.cpp"
@@ -3903,7 +3907,7 @@ def r02_6(chk, repo, S):
     for q in copies:
         fi = repo.func(q)
         chk.analysed_unit(q)
-        check_split_fields(chk, fi, "R02.6a", repo=repo, sims=S)
+        check_split_fields(chk, fi, "R02.6a", repo=repo, sims=S, sem_prefix="sem::")
     # total helpers (split_fields: the implementations the two readers' modules resolve the name to)
     for q in ["esutil.sfile.reduce_array"] + sorted({offered[m] for m in ("esutil.sfile", "esutil.recfile.Util") if offered[m]}):
         fi = repo.func(q)
@@ -4130,6 +4134,616 @@ def _r02_6d_structural(chk, sr):
                    sr.where(n.ast), "read(header=True) returns a copy of the header")
 
 
+# ---------------------------------------------------------------------------
+# split_fields, semantic form: a symbolic walk over EVERY path of the function (no input is chosen: parameters stay symbols, a test
+# whose outcome the path has not fixed is followed both ways, a loop body is walked once for a symbolic "element being visited").
+# What each return path hands out is a term; the four rules are statements about those terms, so they hold however the code is
+# spelled (append loop / comprehension / generator in tuple(), local helper extracted, guard clause vs if/else, swapped arms with
+# negated test, elif vs nested if, renamed locals).  Anything outside the small fragment gives no verdict (the template form
+# decides), never a pass.
+#
+# terms: ("P", name) parameter   ("C", const)   ("DT", x) x.dtype   ("FIELDS", x) / ("NAMES", x) x.dtype.fields / .names
+#        ("ITEM", x, k) x[k]     ("ELEM", src, n) the element loop n visits   ("SEQ", (..)) display   ("LIST", n) list built here
+#        ("VIEWS", segs) tuple(<list built here>)   ("GEN", seg) generator   ("FUNC", def) local helper   ("UNK", text) / ("CALL", ..)
+# a list is a tuple of segments: ("ELT", v) one element, ("LOOP", src, v, checked, skip) one `v` per element of `src`, in order
+#        (checked: the visit raises unless the element is a field name of the data; skip: some visit adds nothing / is filtered / breaks)
+# ---------------------------------------------------------------------------
+class _SFUnsup(Exception):
+    pass
+
+
+_SF_RAISE = ("RAISE",)
+_SF_REORDER = ("sorted", "set", "frozenset", "reversed", "unique")
+
+
+class _SFWalk(object):
+    def __init__(self, fi):
+        import itertools
+        self.fi = fi
+        self.ids = itertools.count(1)
+        p = list(fi.params)
+        if len(p) < 2:
+            raise _SFUnsup("split_fields without (data, fields) parameters")
+        self.data, self.req = ("P", p[0]), ("P", p[1])
+        self.getn = ("P", p[2]) if len(p) > 2 else None
+        self.steps = 0
+
+    # -- state: (env, facts, heap), copied on write ----------------------------------------------------------------------
+    def tick(self):
+        self.steps += 1
+        if self.steps > 20000:
+            raise _SFUnsup("too many paths")
+
+    @staticmethod
+    def has_list(v):
+        return isinstance(v, tuple) and (v[:1] == ("LIST",) or any(_SFWalk.has_list(x) for x in v if isinstance(x, tuple)))
+
+    def atom(self, a, S):
+        """[(truth, state)] of atom a: fixed by the facts of the path, or followed both ways"""
+        env, facts, heap = S
+        if a in facts:
+            return [(facts[a], S)]
+        k, v = a[0], a[1]
+        if k == "ISNONE":
+            if v == ("C", None):
+                return [(True, S)]
+            if v[0] in ("C", "LIST", "SEQ", "VIEWS", "GEN", "FUNC") or facts.get(("TRUTHY", v)) is True or \
+                    any(f[0] == "ISA" and f[1] == v and t for f, t in facts.items()):
+                return [(False, S)]
+        if k == "TRUTHY":
+            if v[0] == "C":
+                return [(bool(v[1]), S)]
+            if facts.get(("ISNONE", v)) is True:
+                return [(False, S)]
+            if v[0] == "SEQ":
+                return [(bool(v[1]), S)]
+            if v[0] == "FUNC":
+                return [(True, S)]
+        if k == "ISA" and (v == ("C", None) or facts.get(("ISNONE", v)) is True):
+            return [(False, S)]
+        if k == "IN" and v[0] == "ELEM":
+            # the element being visited is in what is being walked; the names and the fields mapping of one dtype hold the same names
+            both = (("FIELDS", self.data), ("NAMES", self.data))
+            if a[2] == v[1] or (a[2] in both and v[1] in both):
+                return [(True, S)]
+        out = []
+        for t in (True, False):
+            f2 = dict(facts)
+            f2[a] = t
+            out.append((t, (env, f2, heap)))
+        return out
+
+    # -- tests -----------------------------------------------------------------------------------------------------------
+    def test(self, t, S):
+        self.tick()
+        if isinstance(t, ast.UnaryOp) and isinstance(t.op, ast.Not):
+            return [(not r, S2) for r, S2 in self.test(t.operand, S)]
+        if isinstance(t, ast.BoolOp):
+            stop = isinstance(t.op, ast.Or)
+            cur, done = [S], []
+            for i, v in enumerate(t.values):
+                nxt = []
+                for S1 in cur:
+                    for r, S2 in self.test(v, S1):
+                        if r == stop or i == len(t.values) - 1:
+                            done.append((r, S2))
+                        else:
+                            nxt.append(S2)
+                cur = nxt
+            return done
+        if isinstance(t, ast.Compare) and len(t.ops) == 1:
+            op = t.ops[0]
+            out = []
+            for a, S1 in self.ev(t.left, S):
+                for b, S2 in self.ev(t.comparators[0], S1):
+                    if a is _SF_RAISE or b is _SF_RAISE:
+                        raise _SFUnsup("a test that raises")
+                    if isinstance(op, (ast.Is, ast.IsNot, ast.Eq, ast.NotEq)) and ("C", None) in (a, b) and \
+                            (isinstance(op, (ast.Is, ast.IsNot)) or (a[0] in ("P", "FIELDS", "NAMES", "C") and b[0] in ("P", "FIELDS", "NAMES", "C"))):
+                        x = b if a == ("C", None) else a
+                        neg = isinstance(op, (ast.IsNot, ast.NotEq))
+                        out += [(r != neg, S3) for r, S3 in self.atom(("ISNONE", x), S2)]
+                    elif isinstance(op, (ast.In, ast.NotIn)):
+                        neg = isinstance(op, ast.NotIn)
+                        out += [(r != neg, S3) for r, S3 in self.atom(("IN", a, b), S2)]
+                    else:
+                        if self.has_list(a) or self.has_list(b):
+                            raise _SFUnsup("a test of the list of views")
+                        out += self.atom(("CMP", type(op).__name__, a, b), S2)
+            return out
+        if isinstance(t, ast.Call) and isinstance(t.func, ast.Name) and t.func.id not in S[0] and not t.keywords and \
+                ((t.func.id == "isinstance" and len(t.args) == 2) or (len(t.args) == 1 and "str" in t.func.id.lower())):
+            # isinstance(x, T) / a module-level is-it-a-string predicate (isstring, is_str ...): an atom about x
+            out = []
+            for a, S1 in self.ev(t.args[0], S):
+                if a is _SF_RAISE or self.has_list(a):
+                    raise _SFUnsup("type test of %s" % (a,))
+                out += self.atom(("ISA", a, norm(t.args[1]) if len(t.args) == 2 else "str:" + t.func.id), S1)
+            return out
+        out = []
+        for v, S1 in self.ev(t, S):
+            if v is _SF_RAISE:
+                raise _SFUnsup("a test that raises")
+            if v[0] == "LIST":
+                raise _SFUnsup("a test of the list of views")
+            out += self.atom(("TRUTHY", v), S1)
+        return out
+
+    # -- expressions: [(term, state)] --------------------------------------------------------------------------------------
+    def evs(self, es, S):
+        """[(tuple of terms, state)] for a sequence of expressions, left to right; a raising operand ends the sequence"""
+        cur = [((), S)]
+        for e in es:
+            nxt = []
+            for vs, S1 in cur:
+                if vs and vs[-1] is _SF_RAISE:
+                    nxt.append((vs, S1))
+                    continue
+                for v, S2 in self.ev(e, S1):
+                    nxt.append((vs + (v,), S2))
+            cur = nxt
+        return cur
+
+    def new_list(self, segs, S):
+        env, facts, heap = S
+        lid = next(self.ids)
+        heap = dict(heap)
+        heap[lid] = tuple(segs)
+        return ("LIST", lid), (env, facts, heap)
+
+    def ev(self, e, S):
+        self.tick()
+        env, facts, heap = S
+        if isinstance(e, ast.Constant):
+            return [(("C", e.value), S)]
+        if isinstance(e, ast.Name):
+            return [(env.get(e.id, ("G", e.id)), S)]
+        if isinstance(e, ast.Attribute):
+            out = []
+            for v, S1 in self.ev(e.value, S):
+                if v is _SF_RAISE:
+                    out.append((v, S1))
+                elif self.has_list(v):
+                    raise _SFUnsup("attribute of the list of views")
+                elif e.attr == "dtype":
+                    out.append((("DT", v), S1))
+                elif v[0] == "DT" and e.attr in ("fields", "names"):
+                    out.append(((e.attr.upper(), v[1]), S1))
+                else:
+                    out.append((("ATTR", v, e.attr), S1))
+            return out
+        if isinstance(e, ast.Subscript):
+            if isinstance(e.slice, ast.Slice):
+                for v, S1 in self.ev(e.value, S):
+                    if v is _SF_RAISE or self.has_list(v):
+                        raise _SFUnsup("slice of %s" % (v,))
+                return [(("UNK", norm(e)), S)]
+            out = []
+            for vs, S1 in self.evs([e.value, e.slice], S):
+                if vs[-1] is _SF_RAISE:
+                    out.append((_SF_RAISE, S1))
+                elif self.has_list(vs[0]) or self.has_list(vs[1]):
+                    raise _SFUnsup("subscript of / by the list of views")
+                else:
+                    out.append((("ITEM", vs[0], vs[1]), S1))
+            return out
+        if isinstance(e, (ast.Tuple, ast.List)):
+            if any(isinstance(x, ast.Starred) for x in e.elts):
+                raise _SFUnsup("starred display")
+            if isinstance(e, ast.List) and not e.elts:
+                return [self.new_list((), S)]
+            return [((_SF_RAISE if vs and vs[-1] is _SF_RAISE else ("SEQ", vs)), S1) for vs, S1 in self.evs(e.elts, S)]
+        if isinstance(e, ast.IfExp):
+            out = []
+            for r, S1 in self.test(e.test, S):
+                out += self.ev(e.body if r else e.orelse, S1)
+            return out
+        if isinstance(e, ast.BoolOp):
+            # value of `a or b` / `a and b`: the first operand whose truth decides, else the last
+            stop = isinstance(e.op, ast.Or)
+            out, cur = [], [S]
+            for i, x in enumerate(e.values):
+                nxt = []
+                for S1 in cur:
+                    for v, S2 in self.ev(x, S1):
+                        if v is _SF_RAISE or i == len(e.values) - 1:
+                            out.append((v, S2))
+                            continue
+                        if v[0] == "LIST":
+                            raise _SFUnsup("truth of the list of views")
+                        for r, S3 in self.atom(("TRUTHY", v), S2):
+                            if r == stop:
+                                out.append((v, S3))
+                            else:
+                                nxt.append(S3)
+                cur = nxt
+            return out
+        if isinstance(e, (ast.ListComp, ast.GeneratorExp)):
+            return self.comp(e, S)
+        if isinstance(e, ast.Call):
+            return self.call(e, S)
+        if isinstance(e, (ast.Compare, ast.UnaryOp, ast.BinOp, ast.JoinedStr, ast.FormattedValue, ast.Lambda, ast.Dict, ast.Set)):
+            # a term nothing is known about (a truth value used as a value, a message being formatted ...)
+            return self.opaque(e, S)
+        raise _SFUnsup("expression %s" % type(e).__name__)
+
+    def opaque(self, e, S):
+        """a term nothing is known about; sound only when evaluating it cannot touch a list built here and calls nothing local"""
+        env = S[0]
+        for x in ast.walk(e):
+            if isinstance(x, ast.Name) and (self.has_list(env.get(x.id, ())) or env.get(x.id, ("",))[0] in ("FUNC", "GEN")):
+                raise _SFUnsup("`%s` uses the list of views / a local helper inside an expression that is not followed" % norm(e))
+            if isinstance(x, (ast.NamedExpr, ast.Yield, ast.YieldFrom, ast.Await)):
+                raise _SFUnsup("`%s`" % norm(e))
+        return [(("UNK", norm(e)), S)]
+
+    def comp(self, e, S):
+        if len(e.generators) != 1 or not isinstance(e.generators[0].target, ast.Name) or e.generators[0].is_async:
+            raise _SFUnsup("comprehension with several / destructuring generators")
+        g = e.generators[0]
+        out = []
+        for src, S1 in self.ev(g.iter, S):
+            if src is _SF_RAISE:
+                out.append((src, S1))
+                continue
+            if self.has_list(src):
+                raise _SFUnsup("comprehension over the list of views")
+            env, facts, heap = S1
+            n = next(self.ids)
+            el = ("ELEM", src, n)
+            env2 = dict(env)
+            env2[g.target.id] = el
+            alts = [(True, (env2, facts, heap))]
+            for c in g.ifs:
+                alts = [(r and r0, S3) for r0, S2 in alts for r, S3 in (self.test(c, S2) if r0 else [(False, S2)])]
+            filtered = any(not r for r, _ in alts)
+            vals, raised = [], []
+            for r, S2 in alts:
+                if not r:
+                    continue
+                for v, S3 in self.ev(e.elt, S2):
+                    if S3[2] != heap:
+                        raise _SFUnsup("comprehension element with an effect on a list")
+                    (raised if v is _SF_RAISE else vals).append((v, S3[1]))
+            seg = self.segment(src, el, [(v, f) for v, f in vals], [f for _, f in raised], filtered or not vals and not raised)
+            if isinstance(e, ast.ListComp):
+                out.append(self.new_list((seg,), S1))
+            else:
+                out.append((("GEN", seg), S1))
+        return out
+
+    def segment(self, src, el, vals, raised_facts, skip):
+        """what one loop / comprehension over `src` contributes: vals = [(term added by a visit that ends normally, its facts)]"""
+        distinct = sorted({v for v, _ in vals}, key=repr)
+        names = [("FIELDS", self.data), ("NAMES", self.data)]
+        checked = bool(vals) and all(any(f.get(("IN", el, c)) is True for c in names) for _, f in vals) and \
+            any(any(f.get(("IN", el, c)) is False for c in names) for f in raised_facts)
+        v = distinct[0] if len(distinct) == 1 else ("UNK", "different elements on different paths: %s" % (distinct,))
+        return ("LOOP", src, v, checked, bool(skip))
+
+    def call(self, e, S):
+        env = S[0]
+        if any(k.arg is None for k in e.keywords) or any(isinstance(a, ast.Starred) for a in e.args):
+            raise _SFUnsup("call with * / **")
+        f = e.func
+        # method of a list built here: only append is followed
+        if isinstance(f, ast.Attribute):
+            out = []
+            for recv, S1 in self.ev(f.value, S):
+                if recv is _SF_RAISE:
+                    out.append((recv, S1))
+                    continue
+                if recv[0] == "LIST":
+                    if f.attr != "append" or len(e.args) != 1 or e.keywords:
+                        raise _SFUnsup("list method %s on the list of views" % f.attr)
+                    for v, S2 in self.ev(e.args[0], S1):
+                        if v is _SF_RAISE:
+                            out.append((v, S2))
+                            continue
+                        if self.has_list(v) or v[0] == "GEN":
+                            raise _SFUnsup("a list appended to the list of views")
+                        env2, facts2, heap2 = S2
+                        heap2 = dict(heap2)
+                        heap2[recv[1]] = heap2[recv[1]] + (("ELT", v),)
+                        out.append((("C", None), (env2, facts2, heap2)))
+                    continue
+                if self.has_list(recv) or recv[0] == "GEN":
+                    raise _SFUnsup("method of %s" % (recv,))
+                for vs, S2 in self.evs(list(e.args) + [k.value for k in e.keywords], S1):
+                    if vs and vs[-1] is _SF_RAISE:
+                        out.append((_SF_RAISE, S2))
+                    elif any(self.has_list(v) or v[0] in ("GEN", "FUNC") for v in vs):
+                        raise _SFUnsup("the list of views / a generator / a local helper handed to `%s`" % norm(f))
+                    elif f.attr == "keys" and not vs and recv[0] == "FIELDS":
+                        out.append((recv, S2))          # the names of the mapping, in its (dtype) order
+                    else:
+                        out.append((("CALL", "." + f.attr, (recv,) + vs), S2))
+            return out
+        if not isinstance(f, ast.Name):
+            raise _SFUnsup("call of `%s`" % norm(f))
+        fv = env.get(f.id)
+        if fv is not None and fv[0] == "FUNC":
+            return self.inline(fv[1], e, S)
+        if fv is not None:
+            raise _SFUnsup("call of the local value `%s`" % f.id)
+        out = []
+        for vs, S1 in self.evs(list(e.args) + [k.value for k in e.keywords], S):
+            if vs and vs[-1] is _SF_RAISE:
+                out.append((_SF_RAISE, S1))
+                continue
+            if f.id in ("list", "tuple") and len(vs) <= 1 and not e.keywords:
+                if not vs:
+                    out.append(self.new_list((), S1) if f.id == "list" else (("SEQ", ()), S1))
+                    continue
+                v = vs[0]
+                if v[0] == "LIST":
+                    segs = S1[2][v[1]]
+                    out.append((("VIEWS", segs), S1) if f.id == "tuple" else self.new_list(segs, S1))
+                elif v[0] == "GEN":
+                    out.append((("VIEWS", (v[1],)), S1) if f.id == "tuple" else self.new_list((v[1],), S1))
+                elif v[0] == "VIEWS" and f.id == "tuple":
+                    out.append((v, S1))
+                elif v[0] == "VIEWS":
+                    out.append(self.new_list(v[1], S1))
+                elif self.has_list(v):
+                    raise _SFUnsup("%s() of %s" % (f.id, v))
+                else:
+                    out.append((v, S1))                 # same elements in the same order
+                continue
+            if any(self.has_list(v) or v[0] in ("GEN", "FUNC") for v in vs):
+                raise _SFUnsup("the list of views / a generator / a local helper handed to `%s`" % f.id)
+            out.append((("CALL", f.id, vs), S1))
+        return out
+
+    def inline(self, fn, e, S):
+        a = fn.args
+        if a.vararg or a.kwarg or a.kwonlyargs or a.posonlyargs or a.defaults or e.keywords or len(e.args) != len(a.args) or \
+                rules.is_generator(fn) or fn.decorator_list:
+            raise _SFUnsup("call of the local helper %s is not positional one to one" % fn.name)
+        out = []
+        for vs, S1 in self.evs(e.args, S):
+            if vs and vs[-1] is _SF_RAISE:
+                out.append((_SF_RAISE, S1))
+                continue
+            env, facts, heap = S1
+            inner = dict(env)
+            for p, v in zip(a.args, vs):
+                inner[p.arg] = v
+            for st, val, S2 in self.block(fn.body, (inner, facts, heap), depth=1):
+                back = (env, S2[1], S2[2])      # the helper's locals end with the call (it rebinds none of the caller's: no nonlocal)
+                if st == "raise":
+                    out.append((_SF_RAISE, back))
+                elif st == "return":
+                    out.append((val, back))
+                elif st == "next":
+                    out.append((("C", None), back))
+                else:
+                    raise _SFUnsup("break / continue out of a helper")
+        return out
+
+    # -- statements: [(status, value, state)], status in next / return / raise / break / continue ------------------------------
+    def block(self, stmts, S, depth=0):
+        cur, done = [S], []
+        for st in stmts:
+            nxt = []
+            for S1 in cur:
+                for r in self.stmt(st, S1, depth):
+                    if r[0] == "next":
+                        nxt.append(r[2])
+                    else:
+                        done.append(r)
+            cur = nxt
+            if not cur:
+                break
+        return done + [("next", None, S1) for S1 in cur]
+
+    def stmt(self, st, S, depth):
+        self.tick()
+        env, facts, heap = S
+        if isinstance(st, ast.Pass) or isinstance(st, (ast.Import, ast.ImportFrom)) and not any((a.asname or a.name.split(".")[0]) in env for a in st.names):
+            return [("next", None, S)]
+        if isinstance(st, ast.Expr):
+            if isinstance(st.value, ast.Constant):
+                return [("next", None, S)]
+            return [("raise", None, S1) if v is _SF_RAISE else ("next", None, S1) for v, S1 in self.ev(st.value, S)]
+        if isinstance(st, (ast.Assign, ast.AnnAssign)):
+            targets = st.targets if isinstance(st, ast.Assign) else [st.target]
+            if st.value is None:
+                return [("next", None, S)]
+            if not all(isinstance(t, ast.Name) for t in targets):
+                raise _SFUnsup("assignment to `%s`" % norm(targets[0]))
+            out = []
+            for v, S1 in self.ev(st.value, S):
+                if v is _SF_RAISE:
+                    out.append(("raise", None, S1))
+                    continue
+                env2 = dict(S1[0])
+                for t in targets:
+                    env2[t.id] = v
+                out.append(("next", None, (env2, S1[1], S1[2])))
+            return out
+        if isinstance(st, ast.If):
+            out = []
+            for r, S1 in self.test(st.test, S):
+                out += self.block(st.body if r else st.orelse, S1, depth)
+            return out
+        if isinstance(st, ast.Return):
+            if st.value is None:
+                return [("return", ("C", None), S)]
+            return [("raise", None, S1) if v is _SF_RAISE else ("return", v, S1) for v, S1 in self.ev(st.value, S)]
+        if isinstance(st, ast.Raise):
+            return [("raise", None, S)]
+        if isinstance(st, ast.Break):
+            return [("break", None, S)]
+        if isinstance(st, ast.Continue):
+            return [("continue", None, S)]
+        if isinstance(st, ast.FunctionDef):
+            if any(isinstance(x, (ast.Nonlocal, ast.Global)) for x in ast.walk(st)):
+                raise _SFUnsup("local helper with nonlocal / global")
+            env2 = dict(env)
+            env2[st.name] = ("FUNC", st)
+            return [("next", None, (env2, facts, heap))]
+        if isinstance(st, ast.For) and isinstance(st.target, ast.Name) and not st.orelse:
+            return self.loop(st, S, depth)
+        raise _SFUnsup("statement %s at line %s" % (type(st).__name__, getattr(st, "lineno", "?")))
+
+    def loop(self, st, S, depth):
+        out = []
+        assigned = {x.id for b in st.body for x in ast.walk(b) if isinstance(x, ast.Name) and isinstance(x.ctx, ast.Store)} | {st.target.id}
+        for src, S1 in self.ev(st.iter, S):
+            if src is _SF_RAISE:
+                out.append(("raise", None, S1))
+                continue
+            if self.has_list(src):
+                raise _SFUnsup("loop over the list of views")
+            env, facts, heap = S1
+            n = next(self.ids)
+            el = ("ELEM", src, n)
+            env2 = dict(env)
+            env2[st.target.id] = el
+            vals, raised, skip, touched = [], [], False, set()
+            for status, val, S2 in self.block(st.body, (env2, facts, heap), depth):
+                if status == "raise":
+                    raised.append(S2[1])
+                    continue
+                if status == "return":
+                    raise _SFUnsup("return inside a loop")
+                delta = {}
+                for lid, segs in S2[2].items():
+                    if lid in heap and segs != heap[lid]:
+                        if segs[:len(heap[lid])] != heap[lid]:
+                            raise _SFUnsup("list rewritten inside a loop")
+                        delta[lid] = segs[len(heap[lid]):]
+                touched |= set(delta)
+                if status == "break":
+                    skip = True         # the elements after this one are not visited
+                    continue
+                vals.append((delta, S2[1]))
+            if len(touched) > 1:
+                raise _SFUnsup("a loop that fills several lists")
+            env3 = dict(env)
+            for a in assigned:
+                env3[a] = ("UNK", "bound inside the loop at line %s" % st.lineno)
+            heap3 = heap
+            if touched:
+                lid = next(iter(touched))
+                per_visit = []
+                for delta, f in vals:
+                    d = delta.get(lid, ())
+                    if len(d) == 1 and d[0][0] == "ELT":
+                        per_visit.append((d[0][1], f))
+                    elif not d:
+                        skip = True     # a visit that ends normally and adds nothing
+                    else:
+                        per_visit.append((("UNK", "several elements per visit"), f))
+                heap3 = dict(heap)
+                heap3[lid] = heap[lid] + (self.segment(src, el, per_visit, raised, skip),)
+            out.append(("next", None, (env3, facts, heap3)))
+        return out
+
+
+def _split_fields_semantic(fi):
+    """{key: (True / False / None, text)} for the four split_fields rules, from the symbolic walk; {} when the function leaves the fragment"""
+    try:
+        w = _SFWalk(fi)
+        env = {p: ("P", p) for p in fi.params}
+        outs = w.block([s for s in fi.node.body], (env, {}, {}))
+    except _SFUnsup as e:
+        return {}, "not followed: %s" % e
+    except RecursionError:
+        return {}, "not followed: recursion"
+    data, req, getn = w.data, w.req, w.getn
+    ALL = (("FIELDS", data), ("NAMES", data))
+    rets = [(v, S[1]) for st, v, S in outs if st == "return"] + [(("C", None), S[1]) for st, v, S in outs if st == "next"]
+
+    def nofields(f):
+        return any(f.get(("ISNONE", c)) is True for c in ALL)
+
+    def unrequested(f):        # fields is None (or empty) on this path
+        return f.get(("ISNONE", req)) is True or f.get(("TRUTHY", req)) is False
+
+    def views_of(v):
+        """(segments, names term or None) of a returned value, else None"""
+        if v[0] == "VIEWS":
+            return v[1], None
+        if v[0] == "SEQ" and len(v[1]) == 2 and v[1][0][0] == "VIEWS":
+            return v[1][0][1], v[1][1]
+        return None
+
+    def tri(vs):
+        return False if False in vs else None if (None in vs or not vs) else True
+
+    order, shape, dflt, miss, seen = [], [], [], [], []
+    for v, f in rets:
+        if nofields(f):
+            # an array without fields is its own single view
+            plain = v == ("SEQ", (data,)) or (v[0] == "SEQ" and len(v[1]) == 2 and v[1][0] == ("SEQ", (data,)))
+            shape.append(True if plain else None)
+            continue
+        vw = views_of(v)
+        if vw is None:
+            shape.append(False if v[0] in ("LIST", "GEN") or v == ("C", None) else None)
+            order.append(None)
+            continue
+        segs, names = vw
+        with_names = getn is not None and f.get(("TRUTHY", getn))
+        if len(segs) != 1 or segs[0][0] != "LOOP":
+            order.append(None)
+            shape.append(None)
+            continue
+        _, src, elt, checked, skip = segs[0]
+        el = next((x for x in _sf_subterms(elt) if x[0] == "ELEM" and x[1] == src), None)
+        seen.append("data[<element>] for each element of %s" % _sf_show(src))
+        # shape: tuple of the views; with getnames the names walked as well
+        if names is None:
+            shape.append(None if with_names else True)
+        else:
+            shape.append(True if (with_names is not False and names == src) else None)
+        isstr = any(k[0] == "ISA" and k[1] == req and "str" in k[2] and t for k, t in f.items())
+        good_elt = el is not None and elt == ("ITEM", data, el)
+        if unrequested(f):
+            dflt.append(True if (src in ALL and good_elt and not skip) else False if src == req else None)
+        else:
+            if f.get(("ISNONE", req)) is None and f.get(("TRUTHY", req)) is None:
+                # no test of fields on this path: a None request reaches the walk as it is
+                dflt.append(False if src == req else None)
+            if skip or src in ALL:
+                order.append(False)
+            elif good_elt and (src == req or (src == ("SEQ", (req,)) and isstr)):
+                order.append(True)
+            else:
+                order.append(None)
+            miss.append(True if checked else None)
+    text = " [decided on the returned terms: %s]" % "; ".join(sorted(set(seen))) if seen else ""
+    res = {
+        "::one-view-per-field-in-order": tri(order),
+        "::returns-tuple-of-views": tri(shape) if (tri(order) is not None or tri(shape) is False) else None,
+        "::default-all-fields": tri(dflt),
+        "::missing-field-raises": tri(miss) if tri(order) else None,
+    }
+    return res, text
+
+
+def _sf_subterms(t):
+    yield t
+    for x in t:
+        if isinstance(x, tuple):
+            for y in _sf_subterms(x):
+                yield y
+
+
+def _sf_show(t):
+    if not isinstance(t, tuple) or not t:
+        return repr(t)
+    if t[0] == "P":
+        return t[1]
+    if t[0] in ("FIELDS", "NAMES"):
+        return "%s.dtype.%s" % (_sf_show(t[1]), t[0].lower())
+    if t[0] == "SEQ":
+        return "[%s]" % ", ".join(_sf_show(x) for x in t[1])
+    return "%s(%s)" % (t[0], ", ".join(_sf_show(x) for x in t[1:]))
+
+
 class _NoRepo(object):
     """stand-in when check_split_fields is used without a repository object: only names of the function's own module resolve"""
 
@@ -4143,9 +4757,11 @@ class _NoRepo(object):
         return dotted
 
 
-def check_split_fields(chk, fi, rule, repo=None, sims=None):
+def check_split_fields(chk, fi, rule, repo=None, sims=None, sem_prefix=""):
     """spec of a split_fields copy (also used by C07): one view per requested field, in request order, as a tuple; all fields by
-    default; a missing field raises.  Decided by evaluation on a model array; structural form as fall-back."""
+    default; a missing field raises.  Decided on the terms every return path hands out (symbolic walk over all paths,
+    _split_fields_semantic); an instance the walk does not decide falls back to the statement template.
+    sem_prefix: key prefix of the instances decided by the walk (C02 lists 'R02.6a::sem::' among its layout-independent rules)."""
     if sims is not None:
         st, res = sims.get("split:" + fi.qualname)
     else:
@@ -4168,10 +4784,34 @@ def check_split_fields(chk, fi, rule, repo=None, sims=None):
             chk.ob(rule, "eval::" + fi.qualname + key, not cex, fi.where(),
                    msg + (" -- counterexample: " + "; ".join(cex[:3]) if cex else " [evaluated: %s]" % scope))
         return
-    _split_fields_structural(chk, fi, rule)
+    sem, text = _split_fields_semantic(fi)
+    decided = set()
+    for key, msg in (("::one-view-per-field-in-order", "one `data[field]` view per requested field, in request order, none skipped"),
+                     ("::returns-tuple-of-views", "returns a tuple of the views (with getnames: the tuple and the names walked)"),
+                     ("::default-all-fields", "fields=None selects every field of the dtype in dtype order"),
+                     ("::missing-field-raises", "a requested field that does not exist raises")):
+        v = sem.get(key)
+        if v is not None:
+            decided.add(key)
+            chk.ob(rule, sem_prefix + fi.qualname + key, v, fi.where(), msg + text)
+    if len(decided) < 4:
+        _split_fields_structural(chk, fi, rule, skip=decided)
 
 
-def _split_fields_structural(chk, fi, rule):
+class _Only(object):
+    """forwards the rule instances whose key does not end in one of `skip` (those were decided elsewhere)"""
+
+    def __init__(self, chk, skip):
+        self.chk, self.skip = chk, tuple(skip)
+
+    def ob(self, rule, key, ok, where="", msg="", **kw):
+        if self.skip and key.endswith(self.skip):
+            return bool(ok)
+        return self.chk.ob(rule, key, ok, where, msg, **kw)
+
+
+def _split_fields_structural(chk, fi, rule, skip=()):
+    chk = _Only(chk, skip)
     fn = fi.node
     loops = [x for x in walk_no_nested(fn) if isinstance(x, ast.For)]
     ok = False
